@@ -23,7 +23,8 @@ demonstration. Every delivered change is kept under `seeded/<id>/` (patch.diff, 
 confirmed by `tools/seed_confirm.sh` in a scratch worktree with a complete build: incremental rebuild, the COMPLETE test suite,
 the demo against the patched and the unpatched library (`seeded/CONFIRM.log`). `tools/seedtest.sh <id>` runs the property's check
 against a scratch copy of the sources with the patch applied (VP_REPO mode), so /repo itself was never modified by a seed.
-Two rounds were run (second round: "a different mechanism than the first seed"). Where a change was missed, the gap was described
+Three rounds were run (second round: "a different mechanism than the first seed"; third round, for half of the properties: "a
+third mechanism, preferably in code the first two did not touch"). Where a change was missed, the gap was described
 to the builder of that check in terms of uncovered behaviour (never by showing the patch), a harness or oracle was added, and the
 seed was re-run; the table keeps the first verdict and the verdict after the follow-up.
 
@@ -42,7 +43,7 @@ Reverse patches of the repaired defects:
 Reading the misses: (1) most first-round misses were *coverage* gaps next to the encoded code (a path cut by the round bound, an
 object never reused, a node only driven by one caller, a failure path never followed by a second operation), not oracle
 weaknesses - once the behaviour was in a harness the solver found the seeded interleaving or input in seconds to minutes;
-(2) store-buffer effects need the TSO mode, which is affordable only for minimal hand-shakes (C04 has one; C02 requested);
+(2) store-buffer effects need the TSO mode, which is affordable only for minimal hand-shakes (C04 has one in quick; C02 got `mutex_handshake_tso` in its thorough tier after r2_C02);
 (3) weaker-than-TSO changes (C12 round 1) and operations outside a property's operation list (C12 round 2: swap) are not detectable
 by these checks and are stated as such.
 ''' % (len(names), caught_first, caught_final, ''.join(ind), ''.join(real))
